@@ -419,6 +419,8 @@ class CouplingLevyCopulaSimulationMaximumStep(
         ) = super().simulate_jumps_with_coupling()
 
         if jump_times.size == 0:
-            return jump_times, fine_all_values, coarse_all_values
-        else:
-            return self.build_finer_grid(jump_times, fine_all_values, coarse_all_values)
+            # no jump: the step from 0 to the maturity is capped as well (one row of values per underlying)
+            fine_all_values = np.zeros(shape=(self._dimension, 0))
+            coarse_all_values = np.zeros(shape=(self._dimension, 0))
+
+        return self.build_finer_grid(jump_times, fine_all_values, coarse_all_values)
